@@ -102,15 +102,15 @@ def build_group(client, kinds, key):
     return g
 
 
-def replay_case(ctx, kinds, key_kind, chain_ix):
+def replay_case(ctx, kinds, key_kind, chain_ix, variant=0):
     """Real fill().sign().hash() against the independent interpretation."""
     from ..fakenode import b58check, b58decode
     from ..opclient import make_client, make_key
     key = make_key(key_kind)
     payload = CHAIN_PAYLOADS[chain_ix - 1]
     chain_id = b58check(bytes([87, 82, 0]), payload)
-    client, node = make_client(key, chain_ctr=5, chain_id=chain_id)
-    case = {'kinds': list(kinds), 'key': key_kind, 'chain': chain_ix}
+    client, node = make_client(key, chain_ctr=5 + variant, chain_id=chain_id)      # the variant changes the counters, hence the signed bytes
+    case = {'kinds': list(kinds), 'key': key_kind, 'chain': chain_ix, 'variant': variant}
     filled = build_group(client, kinds, key).fill()
     if node.unknown:
         raise RuntimeError('FakeNode does not know %s' % node.unknown[:3])
@@ -189,12 +189,19 @@ def run(ctx):
             ctx.count((st['kinds'], st['keyKind'], st['chain']), nontrivial=True)
             if ok and len(st['kinds']) == 1:
                 ctx.sample({'kinds': st['kinds'], 'key': st['keyKind'], 'chain_id': CHAIN_PAYLOADS[st['chain'] - 1].hex(), 'model_watermark': st['wm']}, limit=6)
+    # ECDSA signature components with a leading zero byte occur once in ~128 signatures: the plain transaction scenario of the tz2 / tz3
+    # keys is replayed on many different forged bytes (the same model scenario, other counters)
+    for kk in ('tz2', 'tz3'):
+        for v in range(1, 500 if ctx.quick else 4000):
+            replay_case(ctx, ('transaction',), kk, 1, variant=v)
+            ctx.replayed += 1
+            ctx.count((('transaction',), kk, 1, v), nontrivial=True)
     ctx.exhaustive = True
 
 
 def replay(ctx, rep):
     c = rep['case']
-    replay_case(ctx, tuple(c['kinds']), c['key'], c['chain'])
+    replay_case(ctx, tuple(c['kinds']), c['key'], c['chain'], variant=c.get('variant', 0))
     return report_replay(ctx, rep)
 
 
